@@ -536,6 +536,32 @@ def r9_precheck_entry(chk, prog, rule='R9'):
                   'the level filters of the log are not consulted')
 
 
+def r10_removal_is_exact(chk, prog, rule='R10'):
+    """removing a destination (or a log) removes exactly the named one: the destinations that stay keep receiving
+    their messages.  Every erase() in the remove functions of the log classes is either the single-iterator form
+    (one element) or the erase-remove idiom (range whose start comes from std::remove / remove_if and whose end is
+    end()); a range erase that starts at the result of a SEARCH (find / find_if) drops everything behind the match"""
+    n = 0
+    for f in prog.functions:
+        if f.body is None or '/log/' not in f.file or not f.short.startswith('remove') or \
+                not (f.classq or '').startswith('celma::log::'):
+            continue
+        for c in f.calls():
+            if c.get('k') != 'CXXMemberCallExpr' or (c.get('callee') or '').split('::')[-1] != 'erase':
+                continue
+            a = [x for x in call_args(c) if not x.get('defarg')]
+            n += 1
+            if len(a) == 1:
+                chk.ok(rule, f.name, 'erase( position) removes one element', f.loc(c))
+                continue
+            first = {(y.get('callee') or '').split('::')[-1].split('<')[0] for y in walk(a[0]) if y.get('k') in CALL_KINDS}
+            ok = bool(first & {'remove', 'remove_if', 'unique'}) and not (first & {'find', 'find_if', 'lower_bound'})
+            chk.check(ok, rule, f.name, 'a range erase removes exactly the matching elements (erase-remove idiom)',
+                      f.loc(c), 'the range starts at the result of %s and ends at end(): every element behind the match '
+                      'is removed as well' % sorted(first))
+    chk.require(n >= 1, 'erase() calls in the remove functions of the log classes: %d' % n)
+
+
 def run(chk):
     units = units_matching('library/log/') + [os.path.join(VERIF, 'drivers', 'log.cpp')]
     if chk.tier == 'thorough':
@@ -568,3 +594,5 @@ def run(chk):
     r8_class_filter(chk, prog)
     chk.rule('R9', 'the macro pre-check asks the level filters of the log (or a sound refinement)', 2)
     r9_precheck_entry(chk, prog)
+    chk.rule('R10', 'removing a destination / log removes exactly the named one', 1)
+    r10_removal_is_exact(chk, prog)
